@@ -33,7 +33,7 @@ theorem readMsgFromTCP_ne_panic (s : Bytes) : readMsgFromTCP s ≠ .panic := by
     nothing behind them is looked at, and they are all there. -/
 theorem readMsgFromTCP_msg {s : Bytes} {m : Msg} {rest : Bytes} (h : readMsgFromTCP s = .msg m rest) :
     ∃ a b body, s = a :: b :: (body ++ rest) ∧ body.length = be16 a b ∧ unpackMsg body = .ok m := by
-  unfold readMsgFromTCP at h
+  unfold readMsgFromTCP tcpBodyLen at h
   split at h
   · next a b r =>
     split at h
@@ -53,7 +53,7 @@ theorem readMsgFromTCP_msg {s : Bytes} {m : Msg} {rest : Bytes} (h : readMsgFrom
 /-- The first frame of the protocol-level framing is what `ReadMsgFromTCP` decodes. -/
 theorem readMsgFromTCP_msg_frames {s : Bytes} {m : Msg} {rest : Bytes} (h : readMsgFromTCP s = .msg m rest) :
     ∃ f, f ∈ (frames s).1 ∧ unpackMsg f = .ok m := by
-  unfold readMsgFromTCP at h
+  unfold readMsgFromTCP tcpBodyLen at h
   split at h
   · next a b r =>
     split at h
